@@ -73,9 +73,9 @@ def layouts(total, n):
     if n == 1:
         return [(total,), (total, 1), (2, 3, 3)]
     if n == 2:
-        return [(total,), (18, 18), (2, 9, 18)]
+        return [(total,), (18, 18), (2, 9, 18), (1, total), (18, 1, 18)]         # grids with an axis of length one among them
     if n == 3:
-        return [(total,), (324, 18), (18, 18, 18)]
+        return [(total,), (324, 18), (18, 18, 18), (total, 1)]
     return [(total,)]
 
 
@@ -306,6 +306,11 @@ def run_case(ctx, case):
         ctx.count("plain_ndarray_cases")
     inputs = build_inputs(ocols, shape, payload=ctx.rng("payload", op, n).choice([0.0, 1e30, -1e30, 0.5]), dtypes=odt, mem=[mem[i] for i in order] if mem else None, plain=plain)
     call_params = _weights_as(oparams, case.get("weights_as"))
+    if not dtypes and not mem and total % 3 == 0:
+        # complete fields (no missing cell) that carry a fill value which is itself a fuzzy value occurring in the data
+        for k_, a_ in enumerate(inputs):
+            if isinstance(a_, numpy.ma.MaskedArray) and not numpy.ma.getmaskarray(a_).any():
+                a_.fill_value = [0.0, -1.0, 1.0, 0.5][(k_ + total) % 4]
     if case.get("real_producers"):
         return _run_real(ctx, case, op, n, oparams, ocols, inputs, shape)
     if refs:
